@@ -27,6 +27,22 @@ KERNELS = {
 }
 
 
+def g711_kernels(ctx, prog):
+    ctx.rule('G711-KERNEL', 'each of the sixteen G.711 array kernels contains exactly the documented table index expressions for its sample type (magnitude negated before scaling; sign masked with 0x7F)', floor=16)
+    for name, req in KERNELS.items():
+        f = prog.fn(name)
+        have = set()
+        for n in f.walk():
+            if n['k'] in ('ArraySubscriptExpr', 'BinaryOperator'):
+                have.add(f.s(n))
+        miss = [r for r in req if r not in have]
+        # every subscript of a G.711 table in the kernel must be one of the required forms
+        extra = [f.s(n) for n in f.walk() if n['k'] == 'ArraySubscriptExpr' and f.s(n['kids'][0]) in ('ulaw_encode', 'alaw_encode', 'ulaw_decode', 'alaw_decode')
+                 and not any(f.s(n) in r for r in req)]
+        ctx.ob('G711-KERNEL', name, not miss and not extra, f.loc(f.body), 'index expressions as documented' if not miss and not extra else 'missing %s; unexpected %s' % (miss, extra), None)
+
+
+
 def run(ctx):
     prog = ctx.prog
     eff = Effects(prog)
@@ -54,18 +70,7 @@ def run(ctx):
         bad = [c for c in range(256) if d[c] >= 0 and init[d[c] // gran] != c and not (tab == 'ulaw_encode' and c == 0x7F)]
         ctx.ob('G711-TAB', '%s:identity' % tab, not bad, 'src/%s:%d' % (g['file'].split('/')[-1], g['line']), 'encode (decode (c)) == c for all non-negative levels' if not bad else 'codes not reproduced: %s' % bad[:8], None)
 
-    ctx.rule('G711-KERNEL', 'each of the sixteen G.711 array kernels contains exactly the documented table index expressions for its sample type (magnitude negated before scaling; sign masked with 0x7F)', floor=16)
-    for name, req in KERNELS.items():
-        f = prog.fn(name)
-        have = set()
-        for n in f.walk():
-            if n['k'] in ('ArraySubscriptExpr', 'BinaryOperator'):
-                have.add(f.s(n))
-        miss = [r for r in req if r not in have]
-        # every subscript of a G.711 table in the kernel must be one of the required forms
-        extra = [f.s(n) for n in f.walk() if n['k'] == 'ArraySubscriptExpr' and f.s(n['kids'][0]) in ('ulaw_encode', 'alaw_encode', 'ulaw_decode', 'alaw_decode')
-                 and not any(f.s(n) in r for r in req)]
-        ctx.ob('G711-KERNEL', name, not miss and not extra, f.loc(f.body), 'index expressions as documented' if not miss and not extra else 'missing %s; unexpected %s' % (miss, extra), None)
+    g711_kernels(ctx, prog)
 
     ctx.rule('ADPCM-TAB', 'IMA step and index-adjust tables, MS ADPCM adaptation / coefficient tables, OKI (VOX) step tables equal the published tables', floor=8)
     for name, ref in (('ima_step_size', T.IMA_STEP), ('ima_indx_adjust', T.IMA_INDEX_ADJUST), ('AdaptationTable', T.MS_ADAPTATION), ('AdaptCoeff1', T.MS_COEFF1), ('AdaptCoeff2', T.MS_COEFF2),
